@@ -15,6 +15,8 @@ from .. import build, core
 from ..core import Violation
 from ..harness import Harness, kvline
 from ..ref import script as R
+from ..ref.script import F
+from ..gen import scripts as G
 
 PID = 'C18'
 RULE = ('enumerator: every byte string of length 0..3, length 4 exhaustively (thorough) or 2^24 stratified (quick), 5-byte strings stratified by top byte, integers as stated; '
@@ -154,7 +156,37 @@ def push_of_bytes(hx):
     return ('%02x' % n if n < 76 else '4c%02x' % n) + hx
 
 
+def locktime_case(kind, v, field, minimal, neg_pad):
+    """the five-byte numbers: the operand of OP_CHECKLOCKTIMEVERIFY / OP_CHECKSEQUENCEVERIFY compared with a transaction field next to it"""
+    from . import c01
+    b = R.num_enc(v)
+    if neg_pad and len(b) < 5 and not minimal:
+        b = b[:-1] + bytes([b[-1] & 0x7f]) + bytes(4 - len(b)) + bytes([b[-1] & 0x80]) if b else bytes(5)
+    script = G.push(b, 1) + bytes([0xb1 if kind == 'cltv' else 0xb2, 0x75, 0x51])
+    flags = F['CHECKLOCKTIMEVERIFY'] | F['CHECKSEQUENCEVERIFY'] | (F['MINIMALDATA'] if minimal else 0)
+    tx = (2, field, 0xfffffffe) if kind == 'cltv' else (2, 0, field)
+    return dict(script=script, stack=[], flags=flags, sv=R.BASE, tx=tx, cls='locktime-operand')
+
+
+@st.composite
+def locktime_cases(draw):
+    kind = draw(st.sampled_from(['cltv', 'cltv', 'csv']))
+    edge = st.sampled_from([0, 1, 499999999, 500000000, 500000001, 2 ** 31 - 2, 2 ** 31 - 1, 2 ** 31, 2 ** 31 + 1, 2 ** 32 - 2, 2 ** 32 - 1, 2 ** 32, 2 ** 32 + 1, 2 ** 39 - 1, 0x400000, 0x400001, 0x40ffff, 0xffff, 0x10000,
+                            0x80000000 | 5, 0x80400005])
+    v = draw(st.one_of(edge, st.integers(0, 2 ** 39 - 1), st.integers(2 ** 31 - 1, 2 ** 32), st.integers(-3, 3)))
+    near = [x for x in (v - 1, v, v + 1, 2 ** 31 - 1, 2 ** 31, 2 ** 32 - 1, (v & 0xffff) | (v & 0x400000), ((v & 0xffff) - 1) | (v & 0x400000), v & 0xffffffff) if 0 <= x <= 0xffffffff]
+    field = draw(st.one_of(st.sampled_from(near), st.sampled_from(near), st.integers(0, 0xffffffff)))
+    return ('l', kind, v, field, draw(st.booleans()), draw(st.booleans()))
+
+
 def check_any(case, ctx):
+    if case[0] == 'l':
+        from . import c01
+        c = locktime_case(*case[1:])
+        if len(R.decode(c['script'])[0][1]) == 5:
+            ctx.count('locktime-operand:5-bytes')
+        c01.check_case(c, ctx, harness())
+        return
     if case[0] == 'i':
         check_int(case[1], ctx)
     elif case[0] == 'c':
@@ -166,6 +198,45 @@ def check_any(case, ctx):
 cases = st.one_of(st.tuples(st.just('i'), ints), st.tuples(st.just('s'), strings4), st.tuples(st.just('c'), st.integers(0, len(CONTEXT) - 1), ints))
 
 
+def w_cli(ctx, wid, seed, only=None):
+    """the verdict as the user sees it: the real btcdeb, non-interactive, `[OP_1ADD]` on a byte string given as stack argument, with MINIMALDATA (default) and
+    without: a refused string ends with exit 1 and an error report, an accepted one prints the encoding of value + 1"""
+    from .. import cli
+    import random
+    rnd = random.Random(seed)
+    exe = cli.binpath('btcdeb')
+    fixed = [b'\x01', b'\x7f', b'\x81', b'\xff', b'\x00', b'\x80', b'\x01\x00', b'\x00\x80', b'\xff\x00', b'\xff\x80', b'\x80\x00', b'\x00\x01', b'\xff\xff\xff\x7f', b'\xff\xff\xff\xff',
+             b'\x00\x00\x00\x80', b'\x01\x00\x00\x00', b'\x00\x00\x00\x80\x00', b'\x01\x02\x03\x04\x05', b'\x00\x00\x00\x00\x00']
+    more = [bytes(rnd.randrange(256) for _ in range(rnd.choice([1, 2, 3, 4, 4, 5]))) for _ in range(12)] + [R.num_enc(rnd.randrange(-2 ** 31 + 1, 2 ** 31)) + bytes([rnd.choice([0, 0x80])]) for _ in range(6)]
+    for b in (only or fixed + more):
+        for minimal in (True, False):
+            case = dict(kind='cli', bytes=b.hex(), minimaldata=minimal)
+            ctx.case('cli:%s:%d' % (b.hex(), minimal), True, case, 'cli-verdict')
+            accepted = len(b) <= 4 and (not minimal or R.num_minimal(b))
+            r = cli.run(exe, ([] if minimal else ['--modify-flags=-MINIMALDATA']) + ['[OP_1ADD]', '0x' + b.hex()], stdin_tty=True, timeout=20)
+            if r.timed_out:
+                ctx.inconclusive += 1
+                continue
+            out = [l for l in r.out.decode(errors='replace').split('\n') if l.strip()]
+            if r.abnormal:
+                ctx.violations.append(dict(campaign='cli', why='btcdeb terminated abnormally (%s) on the operand %s' % (r.abnormal, b.hex()), case=case, refails=3))
+                return
+            if accepted:
+                want = R.num_enc(R.num_dec(b, False, 4) + 1).hex()
+                if r.rc != 0 or out != ([want] if want else ['']) and not (want == '' and out in ([], ['0x'])):
+                    ctx.violations.append(dict(campaign='cli', why='[OP_1ADD] on 0x%s (MINIMALDATA %s): expected exit 0 and %r, got rc=%s stdout=%r stderr=%r' % (b.hex(), 'on' if minimal else 'off', want, r.rc, out[-2:], r.err.decode(errors='replace')[-100:]),
+                                               case=case, observed=[r.rc, out[-2:]], expected=want, refails=3))
+                    return
+            elif r.rc != 1 or b'error' not in r.err.lower():
+                ctx.violations.append(dict(campaign='cli', why='[OP_1ADD] on 0x%s (MINIMALDATA %s) must be refused (%s): expected exit 1 and an error report, got rc=%s stdout=%r stderr=%r' % (
+                    b.hex(), 'on' if minimal else 'off', 'longer than 4 bytes' if len(b) > 4 else 'not minimally encoded', r.rc, out[-2:], r.err.decode(errors='replace')[-100:]), case=case, observed=[r.rc, out[-2:]], expected='exit 1', refails=3))
+                return
+
+
+def w_locktime(ctx, wid, seed, examples):
+    core.hyp_campaign(ctx, 'locktime-operands', locktime_cases(), check_any, examples, seed, lambda c: dict(kind='l', value=list(c[1:])))
+
+
 def w_conv(ctx, wid, seed, examples):
     core.hyp_campaign(ctx, 'conversions', cases, check_any, examples, seed, lambda c: dict(kind=c[0], value=c[1].hex() if c[0] == 's' else c[1], n=c[2] if c[0] == 'c' else None))
 
@@ -173,7 +244,8 @@ def w_conv(ctx, wid, seed, examples):
 def run(tier, t0):
     exe = os.path.join(build.ensure('plain'), 'c18_enum')
     p = subprocess.Popen([exe, tier, str(core.seed()), str(core.WORKERS)], stdout=subprocess.PIPE)
-    m = core.parallel(PID, [(w_conv, dict(examples=1500 if tier == 'quick' else 40000)) for _ in range(4 if tier == 'quick' else core.WORKERS)])
+    m = core.parallel(PID, [(w_conv, dict(examples=1500 if tier == 'quick' else 40000)) for _ in range(4 if tier == 'quick' else core.WORKERS)] +
+                      [(w_locktime, dict(examples=1500 if tier == 'quick' else 40000)) for _ in range(2 if tier == 'quick' else 4)] + [(w_cli, dict())])
     out, _ = p.communicate()
     if p.returncode != 0:
         m.errors.append('enumerator exited with %d' % p.returncode)
@@ -214,7 +286,13 @@ def replay(rec):
         n = -(n // 2) - 1 if n & 1 else n // 2
         s = h.req(kvline('scriptnum', bytes=b'', int=n))
         return s.get('enc') == enc_hex(n), 'int %d: tree encodes %r, reference %s' % (n, s.get('enc'), enc_hex(n))
-    if c['kind'] in ('c', 'in-context'):
+    if c['kind'] == 'cli':
+        ctx = core.Ctx(PID)
+        w_cli(ctx, 0, 0, only=[bytes.fromhex(c['bytes'])])
+        return (not ctx.violations), str(ctx.violations[:1])
+    if c['kind'] == 'l':
+        case = tuple(['l'] + list(c['value']))
+    elif c['kind'] in ('c', 'in-context'):
         case = ('c', c['value'] if c['kind'] == 'c' else [t for t, _ in CONTEXT].index(c['before']), c['n'])
     elif c['kind'] in ('s', 'bytes'):
         case = ('s', bytes.fromhex(c['value'] if c['kind'] == 's' else c['hex']))
